@@ -277,8 +277,15 @@ func (g *generator) nullishArg(name, typ string) GArg {
 	g.doc.Vars[v] = &GVar{Name: v, Type: typ}
 	g.plan[v] = "nullish"
 	g.varOrder = append(g.varOrder, v)
-	if g.r.Bool() {
+	switch g.r.Intn(3) {
+	case 0: // null-valued
 		g.values[v] = VarVal{"null", ""}
+	case 1: // null-valued although the variable has a default: an explicit null is null, the default
+		// only applies when the variable is left out
+		def := strconv.Itoa(g.r.Range(2, 40))
+		g.doc.Vars[v].Default = &def
+		g.values[v] = VarVal{"null", ""}
+	default: // no value at all, no default
 	}
 	g.nulls++
 	return GArg{Name: name, Var: v}
